@@ -330,6 +330,19 @@ Definition operand_val (sp : aspec) (I : interp) (g : binding) (e : ebinding) (o
 Fixpoint echain (k : ckind) (l : list ext) : bool :=
   match l with a :: ((b :: _) as r) => eksem k a b && echain k r | _ => true end.
 
+(* the shape "X = V" (V a variable): an assignment when V is not bound yet *)
+Definition is_assign (o : aspop operand) : option (operand * string) :=
+  match ao_operands o, ao_op o with
+  | [x; OVar v], Op_EQUALITY => Some (x, v)
+  | _, _ => None end.
+
+Definition cmp_general (sp : aspec) (I : interp) (g : binding) (e : ebinding) (o : aspop operand) : bool :=
+  match all_some (map (operand_val sp I g e) (ao_operands o)), op_symbol (ao_op o) with
+  | Some vals, Some sym => match kind_of_symbol sym with
+                           | Some kd => xorb (ao_negated o) (echain kd vals)
+                           | None => false end
+  | _, _ => false end.
+
 Fixpoint lits_true (sp : aspec) (I : interp) (g : binding) (e : ebinding) (ls : list olit) : bool :=
   match ls with
   | [] => true
@@ -340,20 +353,13 @@ Fixpoint lits_true (sp : aspec) (I : interp) (g : binding) (e : ebinding) (ls : 
        | Some x, Some y, Some sym => match kind_of_symbol sym with Some kd => ksem kd x y | None => false end
        | _, _, _ => false end) && lits_true sp I g e r
   | OCmp o :: r =>
-      match ao_operands o, ao_op o with
-      | [x; OVar v], Op_EQUALITY =>
-          (* assignment when v is unbound *)
+      match is_assign o with
+      | Some (x, v) =>
           match sassoc v e, sassoc v g with
           | None, None => match operand_val sp I g e x with Some val => lits_true sp I g ((v, val) :: e) r | None => false end
-          | _, _ => match operand_val sp I g e x, operand_val sp I g e (OVar v) with
-                    | Some a, Some b => xorb (ao_negated o) (ext_eqb a b) && lits_true sp I g e r | _, _ => false end
+          | _, _ => cmp_general sp I g e o && lits_true sp I g e r
           end
-      | ops, op =>
-          match all_some (map (operand_val sp I g e) ops), op_symbol op with
-          | Some vals, Some sym => match kind_of_symbol sym with
-                                   | Some kd => xorb (ao_negated o) (echain kd vals) && lits_true sp I g e r
-                                   | None => false end
-          | _, _ => false end
+      | None => cmp_general sp I g e o && lits_true sp I g e r
       end
   end.
 
